@@ -49,6 +49,67 @@ def stall(sock, pdu, cut, style, stop):
         threading.Thread(target=drip, daemon=True).start()
 
 
+def flood(sock, stop):
+    """Keep complete A-RELEASE-RP PDUs (ignored in Sta13) arriving, and drain what the node sends, until told to stop."""
+    rp = A_RELEASE_RP().encode()
+
+    def run():
+        # one very long write: the kernel's buffers stay full for as long as the node keeps reading (about 20 000 PDUs/s),
+        # so the node's receive side never runs dry, whatever the thread scheduling on this side
+        sock.settimeout(BOUND + 3)
+        try:
+            sock.sendall(rp * 400000)
+        except OSError:
+            pass
+    threading.Thread(target=run, daemon=True).start()
+
+
+CERTS = "/repo/pynetdicom/tests/cert_files/"
+
+
+def client_tls():
+    import ssl
+    c = ssl.create_default_context()
+    c.check_hostname = False
+    c.verify_mode = ssl.CERT_NONE
+    return c
+
+
+def run_acceptor_tls(case):
+    """A silent client during the listener's TLS handshake: is a second, well-behaved client still served in time?"""
+    import ssl
+    ctx = ssl.create_default_context(ssl.Purpose.CLIENT_AUTH)
+    ctx.load_cert_chain(CERTS + "server.crt", CERTS + "server.key")
+    ae = AE("ACCEPTOR")
+    ae.acse_timeout, ae.dimse_timeout, ae.network_timeout = ACSE, DIMSE, NETWORK
+    ae.add_supported_context(VERIF_UID)
+    server = ae.start_server(("127.0.0.1", 0), block=False, ssl_context=ctx)
+    port = server.socket.getsockname()[1]
+    silent = socket.create_connection(("127.0.0.1", port))
+    try:
+        time.sleep(BOUND)                       # every configured timeout has long expired
+        ae2 = AE("SECOND")
+        ae2.add_requested_context(VERIF_UID)
+        ae2.acse_timeout, ae2.connection_timeout = 1.5, 1.5
+        t0 = time.monotonic()
+        box = {}
+
+        def second():
+            a = ae2.associate("127.0.0.1", port, tls_args=(client_tls(), None))
+            box["ok"] = bool(a.is_established)
+            if box["ok"]:
+                a.release()
+        th = threading.Thread(target=second, daemon=True)
+        th.start()
+        th.join(4.0)                            # (the second client itself must not be able to hang the lab)
+        ok = bool(box.get("ok"))
+        return {"returned": ok, "t_call": round(time.monotonic() - t0, 3), "alive": [] if ok else ["AssociationServer(accept loop)"], "sockopen": not ok, "aborted": False, "released": False,
+                "established": False, "state": 1, "elapsed": round(BOUND, 3), "peer_saw": []}
+    finally:
+        silent.close()
+        server.shutdown()
+
+
 def store_rq_pdus():
     """[command-set PDU, data-set PDU] of a C-STORE-RQ on context 3 (CT, implicit VR)."""
     from io import BytesIO
@@ -88,6 +149,8 @@ def view(assoc, t_call, returned):
 
 def run_acceptor(case):
     phase, cut, style = case["phase"], case["cut"], case["style"]
+    if phase == "tls":
+        return run_acceptor_tls(case)
     accs = []
     ae = AE("ACCEPTOR")
     ae.acse_timeout, ae.dimse_timeout, ae.network_timeout = ACSE, DIMSE, NETWORK
@@ -115,6 +178,11 @@ def run_acceptor(case):
                 pdus = peer.dimse_bytes(store_rq_pdus(), cx_id=3)
                 peer.sock.sendall(pdus[0])                       # the command set, announcing a data set
                 stall(peer.sock, pdus[1], cut, style, stop)
+            elif phase == "closing":
+                # unexpected in Sta6: AA-8, A-ABORT sent, ARTIM started, Sta13; a flooding peer never lets the receive side run dry
+                peer.sock.sendall(A_RELEASE_RP().encode() * (400 if style == "flood" else 1))
+                if style == "flood":
+                    flood(peer.sock, stop)
             elif phase == "release_rp":
                 acc = accs[-1]
                 call["done"] = False
@@ -140,6 +208,8 @@ def run_acceptor(case):
         o["elapsed"] = round(time.monotonic() - t0, 3)
         # did the peer see the local side end the association (A-ABORT or close)?
         seen = []
+        stop.set()
+        time.sleep(0.01)
         while True:
             k, _ = peer.recv_pdu(0.05)
             if k == "timeout":
@@ -172,6 +242,9 @@ def run_requestor(case):
             c, _ = srv.accept()
             conn["c"] = c
             c.setsockopt(socket.IPPROTO_TCP, socket.TCP_NODELAY, 1)
+            if phase == "tls":
+                stop.wait(BOUND + CONNECT + 2)                      # accept the TCP connection and say nothing
+                return
             recv_pdu(c, 3.0)                                    # the A-ASSOCIATE-RQ
             if phase == "assoc_ac":
                 stall(c, ac, cut, style, stop)
@@ -180,6 +253,12 @@ def run_requestor(case):
                 ready.wait(3.0)
                 if phase == "idle":
                     stall(c, RawPeer.dimse_bytes(None, echo_rsp(), cx_id=1)[0], cut, style, stop)
+                elif phase == "closing":
+                    c.sendall(A_RELEASE_RP().encode() * (400 if style == "flood" else 1))
+                    if style == "flood":
+                        flood(c, stop)
+                        stop.wait(BOUND + 2)
+                        return
                 elif phase == "dimse_rsp":
                     b = recv_pdu(c, 2.0)                        # the C-ECHO-RQ
                     stall(c, RawPeer.dimse_bytes(None, echo_rsp(), cx_id=1)[0], cut, style, stop)
@@ -206,7 +285,7 @@ def run_requestor(case):
 
     def user():
         try:
-            a = ae.associate("127.0.0.1", port)
+            a = ae.associate("127.0.0.1", port, tls_args=(client_tls(), None)) if phase == "tls" else ae.associate("127.0.0.1", port)
             call["assoc"] = a
             if phase != "assoc_ac" and a.is_established:
                 ready.set()
@@ -233,7 +312,7 @@ def run_requestor(case):
                     return t.assoc        # (during negotiation the requestor's association thread has not been started yet)
             return None
 
-        while time.monotonic() - t0 < BOUND + (CONNECT if phase == "assoc_ac" else 0):
+        while time.monotonic() - t0 < BOUND + (CONNECT if phase in ("assoc_ac", "tls") else 0):
             a = assoc()
             if call["done"] and a is not None and not threads_of(a):
                 break
